@@ -14,9 +14,15 @@ Encodings (no spaces):  string  = code points joined by `.`            (empty st
                                pj=<model parse-json post-processing (use-first) of parsed>
   PARSE p=<policy> t=<string> -> val=<spec parseJson(t)|ERR> pj=<model post-processing|ERR:code>
                                spec=<F&O duplicates policy on val|ERR>
-  J2X p=<policy> v=<value>  -> xml=<model json-to-xml|ERR:code> json=<model xml-to-json(xml)|ERR:code>
+  J2X p=<policy> [r=<in>x>out;…>] v=<value>   (r = float() roundings of the run, `sign:digits:decpt>sign:digits:decpt`)
+                            -> xml=<model json-to-xml|ERR:code> json=<model xml-to-json(xml)|ERR:code>
                                parsed=<spec parseJson(json)|ERR>
   X2J e=<element>           -> json=<model xml-to-json|ERR:code>
+  JXE s=<string>            -> j2x=<json-to-xml escape:true text> esc=<escaped attribute> chk=<check_escapes> x2j=<xml-to-json
+                               string branch|ERR:code> dec=<spec decodeBody of its body|ERR>
+  XESC s=<string>           -> ettext=/etattr=/lxtext= (model of the serializers' escaping) rt=/ra=/rl= (spec XML reader on
+                               them) cr=<hasCR>
+  XREAD a=<0|1> t=<string>  -> r=<spec XML reader (character data / attribute value) on t|ERR>
   DEC u=<unscaled> s=<scale> -> old=<quantize2UpOld> trig=<f17bTrigger>
 -/
 import EPV.Proto
@@ -169,6 +175,24 @@ def showPj (p : DupPolicy) : Option JValue → String
 
 def b01 (b : Bool) : String := if b then "1" else "0"
 
+/-- `<sign>:<digits>:<decpt>` -/
+def decOf (s : String) : Option Dec :=
+  match s.splitOn ":" with
+  | [sg, ds, pt] => (int? pt).map fun p => ⟨sg == "-", ds.toList.map (fun c => c.toNat - 48), p⟩
+  | _ => none
+
+/-- the table of `float()` roundings performed by the real run: `in>out;in>out;…` (identity elsewhere) -/
+def rndOf (s : String) : Dec → Dec :=
+  let tbl : List (Dec × Dec) := (s.splitOn ";").filterMap fun e =>
+    match e.splitOn ">" with
+    | [a, b] => match decOf a, decOf b with
+      | some x, some y => some (x, y)
+      | _, _ => none
+    | _ => none
+  fun d => match tbl.find? (·.1 == d) with
+    | some (_, y) => y
+    | none => d
+
 def answer (line : String) : String :=
   let fs := fields line
   let kind := (line.splitOn " ").headD ""
@@ -206,16 +230,38 @@ def answer (line : String) : String :=
       match jsonToXml v (policyOf (field fs "p")) with
       | .error e => s!"xml={showErr e} json=- parsed=-"
       | .ok x =>
-        match xmlToJson x with
+        match xmlToJson (rndOf (field fs "r")) x with
         | .error e => s!"xml={showElem x} json={showErr e} parsed=-"
         | .ok j => s!"xml={showElem x} json=ok:{showStr j} parsed={showOptVal (parseJson j)}"
   else if kind == "X2J" then
     match elemOf (field fs "e") with
     | none => "bad-element"
     | some x =>
-      match xmlToJson x with
+      match xmlToJson (rndOf (field fs "r")) x with
       | .error e => s!"json={showErr e}"
       | .ok j => s!"json=ok:{showStr j}"
+  else if kind == "JXE" then
+    match parseCps (field fs "s") with
+    | none => "bad-string"
+    | some s =>
+      let t := j2xEscapeString s
+      let body : Option Str := match x2jStringEscaped t with
+        | .ok (_ :: r) => some r.dropLast
+        | _ => none
+      s!"j2x={showStr t} esc={b01 (t.contains 92)} chk={b01 (checkEscapes t)} " ++
+      s!"x2j={match x2jStringEscaped t with | .ok j => "ok:" ++ showStr j | .error e => showErr e} " ++
+      s!"dec={showOptStr (body.bind decodeBody)}"
+  else if kind == "XESC" then
+    match parseCps (field fs "s") with
+    | none => "bad-string"
+    | some s =>
+      s!"ettext={showStr (etEscapeText s)} etattr={showStr (etEscapeAttr s)} lxtext={showStr (lxEscapeText s)} " ++
+      s!"rt={showOptStr (xmlReadText (etEscapeText s))} ra={showOptStr (xmlReadAttr (etEscapeAttr s))} " ++
+      s!"rl={showOptStr (xmlReadText (lxEscapeText s))} cr={b01 (hasCR s)}"
+  else if kind == "XREAD" then
+    match parseCps (field fs "t") with
+    | none => "bad-string"
+    | some t => s!"r={showOptStr (if field fs "a" == "1" then xmlReadAttr t else xmlReadText t)}"
   else if kind == "DEC" then
     match nat? (field fs "u"), nat? (field fs "s") with
     | some u, some sc => s!"old={quantize2UpOld u sc} trig={b01 (f17bTrigger u sc)}"
